@@ -14,7 +14,11 @@
 (* injects it into a real client and observes whether the handler runs.    *)
 (*                                                                         *)
 (* The receiver H has (if parent = TRUE) a ledger channel with party I     *)
-(* holding 5/5.  Senders: I (H's channel counterparty) or S (a stranger).  *)
+(* holding I 9 / H 5.  Senders: I (H's channel counterparty) or S (a       *)
+(* stranger).  busy = TRUE: when the proposal arrives, an update of that   *)
+(* channel by which I pays 5 (-> I 4 / H 10) waits for H's user, who       *)
+(* accepts it afterwards: the proposal is judged against the channel as it *)
+(* is when H gets to handle it.                                            *)
 (***************************************************************************)
 EXTENDS Integers, Sequences, FiniteSets, TLC, Json
 
@@ -30,7 +34,10 @@ Base(k) ==
    peers |-> "SR",           \* peers list relative to (sender, receiver); ledger and virtual only
    parent |-> "known",       \* sub: "known" | "unknown"
    assets |-> "same",        \* sub / virtual, relative to the parent: "same" | "other" | "extra" | "backend"
-   funds |-> "within",       \* sub / virtual: "within" | "exceed"
+   funds |-> "within",       \* sub / virtual: "within" | "exceed" | "exceedmapped" (virtual: exceeds the parent only after the
+                             \*   index map is applied: 8 / 2 over I 9 / H 5 with H standing in for the first end point) |
+                             \*   "taken" (busy only: within the parent on arrival, beyond it once the pending update is through)
+   busy |-> FALSE,           \* the receiver's parent channel has an update pending (see above)
    fa |-> "equal",           \* funding agreement: "equal" | "shifted" (same sum, other distribution)
    parents |-> "ok",         \* virtual: "ok" | "none" | "one" | "three" | "unknown"
    imaps |-> "ok"]           \* virtual: "ok" | "one" | "three" | "entry2" | "long"
@@ -70,7 +77,10 @@ Mutants(k) ==
         THEN { <<"parent", [b EXCEPT !.parent = "unknown"]>>, <<"sender", [b EXCEPT !.sender = "S"]>> } ELSE {})
   \cup (IF k \in {"sub", "virtual"}
         THEN { <<"assets", [b EXCEPT !.assets = x]>> : x \in {"other", "extra", "backend"} }
-             \cup { <<"funds", [b EXCEPT !.funds = "exceed"]>> } ELSE {})
+             \cup { <<"funds", [b EXCEPT !.funds = "exceed"]>> }
+             \cup { <<"busy", [b EXCEPT !.busy = TRUE]>> }                          \* control: still affordable afterwards
+             \cup { <<"taken", [b EXCEPT !.busy = TRUE, !.funds = "taken"]>> } ELSE {})
+  \cup (IF k = "virtual" THEN { <<"funds", [b EXCEPT !.funds = "exceedmapped"]>> } ELSE {})
   \cup (IF k = "virtual"
         THEN { <<"parents", [b EXCEPT !.parents = x]>> : x \in {"none", "one", "three", "unknown"} }
              \cup { <<"imaps", [b EXCEPT !.imaps = x]>> : x \in {"one", "three", "entry2", "long"} } ELSE {})
@@ -82,7 +92,8 @@ ASSUME \A k \in Kinds : WellFormed(Base(k), TRUE)
 ASSUME ~WellFormed(Base("sub"), FALSE) /\ ~WellFormed(Base("virtual"), FALSE)
 (* every mutant except the ledger funding agreement breaks well-formedness *)
 ASSUME \A k \in Kinds : \A x \in Mutants(k) :
-          (x[1] \notin {"none"} /\ ~(k = "ledger" /\ x[1] = "fa")) => ~WellFormed(x[2], TRUE)
+          (x[1] \notin {"none", "busy"} /\ ~(k = "ledger" /\ x[1] = "fa")) => ~WellFormed(x[2], TRUE)
+ASSUME \A k \in {"sub", "virtual"} : WellFormed([Base(k) EXCEPT !.busy = TRUE], TRUE)
 
 Export ==
   \A k \in Kinds : \A hp \in BOOLEAN : \A x \in Mutants(k) :
